@@ -556,11 +556,58 @@ def concat_case(draw):
                                      "project": draw(st.sampled_from([None, None, None, None, None, "first", "last"]))}}
 
 
+def check_concat_ranges(case):
+    """axis-0 concat of frames with KNOWN divisions whose index ranges are strictly ordered, touch (last index of one == first
+    index of the next) or overlap: rows == pandas.concat, and when the result claims known divisions they are truthful
+    (every partition's index inside its division interval).  Touching / overlapping ranges without interleave_partitions are
+    refused with the documented ValueError."""
+    import dask.dataframe as dd
+    from vf.props import _dfcommon2 as C2
+
+    pdfs, lo = [], 0
+    for i, (length, gap) in enumerate(zip(case["lengths"], [0] + case["gaps"])):
+        lo = lo + gap if i else 0
+        idx = list(range(lo, lo + length))
+        pdfs.append(pd.DataFrame({"v": [10 * i + j for j in range(length)], "w": [float(j) for j in range(length)]}, index=idx))
+        lo = idx[-1]
+    ordered = all(a.index[-1] < b.index[0] for a, b in zip(pdfs, pdfs[1:]))
+    touching = not ordered and all(a.index[-1] <= b.index[0] for a, b in zip(pdfs, pdfs[1:]))
+    sig = dict(op="concat", axis=0, interleave=bool(case["interleave"]), known_ranges="ordered" if ordered else ("touching" if touching else "overlapping"))
+    with C.quiet():
+        ddfs = [dd.from_pandas(p, npartitions=n, sort=True) for p, n in zip(pdfs, case["nparts"])]
+    want = pd.concat(pdfs)
+    try:
+        with impl("concat", **sig), C.quiet():
+            out = dd.concat(ddfs, interleave_partitions=case["interleave"])
+            got = F.compute(out)
+    except Violation as v:
+        if not ordered and not case["interleave"] and "interleave_partitions=True" in v.message:
+            count("documented-refusal-unordered-divisions")
+            return
+        raise
+    C.same_rows(got, want, what=f"concat of known ranges {[(int(p.index[0]), int(p.index[-1])) for p in pdfs]} (interleave={case['interleave']})", sig=sig, with_index=True, ordered=ordered, meta=out._meta)
+    if out.known_divisions:
+        with impl("partitions of the concat result", **sig), C.quiet():
+            C2.check_divisions_truthful(out, f"concat of known ranges {[(int(p.index[0]), int(p.index[-1])) for p in pdfs]} (interleave={case['interleave']})", sig)
+
+
+def concat_range_cases(tier):
+    import itertools
+
+    for nframes in (2, 3):
+        for gaps in itertools.product((-2, 0, 1, 3), repeat=nframes - 1):
+            for nparts in itertools.product((1, 2), repeat=nframes):
+                for inter in (False, True):
+                    yield {"lengths": [5, 4, 6][:nframes], "gaps": list(gaps), "nparts": list(nparts), "interleave": inter}
+
+
 SUBCHECKS = [
     Sub("merge", check_merge, strategy=lambda tier: merge_case(), n={"quick": 900, "thorough": 20000}, nontrivial=nt_merge, classes=cls_merge,
         doc="merge/join == pandas.merge as row multisets (+dtypes), hash/broadcast/index-aligned strategies"),
     Sub("merge_asof", check_asof, strategy=lambda tier: asof_case(), n={"quick": 400, "thorough": 8000}, nontrivial=nt_asof, classes=cls_asof,
         doc="merge_asof == pandas.merge_asof (left order)"),
+    Sub("concat-ranges", check_concat_ranges, kind="enum", cases=concat_range_cases, nontrivial=lambda c: 0 in c["gaps"] or -2 in c["gaps"], classes=lambda c: ["gaps" + str(sorted(set(c["gaps"])))], exhaustive=True,
+        doc="axis-0 concat of 2-3 frames with known divisions whose index ranges overlap / touch / are adjacent / apart x partition counts x interleave_partitions: rows == pandas, claimed divisions truthful, documented refusal otherwise"),
     Sub("concat", check_concat, strategy=lambda tier: concat_case(), n={"quick": 500, "thorough": 10000}, nontrivial=nt_concat, classes=cls_concat,
         doc="concat axis 0/1, join inner/outer, interleave_partitions == pandas.concat"),
 ]
